@@ -48,6 +48,7 @@ def build(U, g, split_override=None, order_override=None):
     # LB;->m1 reads a field of its own class: in a split world this is field@0 of another DEX file, the same index LA;->m1 uses
     # for the first field it touches (pool indices are per DEX file)
     vmB.emit(index["LB;"].methods[0], 16, "read", ("LB;", "g", "I"))
+    vmB.emit(index["LB;"].methods[0], 20, "new", "LC;")        # likewise type@0 of LB;'s DEX file
     orders = list(itertools.permutations(range(len(split))))
     order = orders[(g["order"] if order_override is None else order_override) % len(orders)]
     dx = ana.Analysis()
